@@ -50,6 +50,25 @@
 (*     RejectAtRefresh = "aborts"); checks/g01.py reports the refutations as observations, each with   *)
 (*     the command sequence replayed on the real code - not as violations: the documentation does not  *)
 (*     promise them.                                                                                   *)
+(* OBSERVATIONS on the real code that came out of this specification (checks/g01.py reports them, with the  *)
+(* command sequences, as observations - none is promised otherwise by the documentation):               *)
+(*   1. RejectAtRefresh = "aborts" is what the tree does: one candidate whose save() raises             *)
+(*      NotActionableError makes every refresh die; the candidates after it in the feed are never       *)
+(*      recorded, the image never reaches rejects/ and so never gets a skip.flag (OkPublished and       *)
+(*      RejectFlagged refuted).                                                                         *)
+(*   2. nothing removes candidates/<id> once the image is fetched (not even publication), and fetch does *)
+(*      not look at cache_done/: a second `fetch <id>` (or `fetch "*"`) queues the image again;          *)
+(*      process-todos reprocesses it and then dies in os.rename onto cache_done/<id>; once approved      *)
+(*      again, publish uploads it and dies in os.rename onto published/<id> - on every later run, and    *)
+(*      the images listed after it are never reached (ExclusiveCache, ExclusiveOutput, NoRework,        *)
+(*      PublishedNotRequeued, NeverWedged refuted for Careful = FALSE; OkPublished refuted for a fixed  *)
+(*      listing order).  The documented re-queue of an image that is already approved or published ends *)
+(*      the same way.                                                                                   *)
+(*   3. process-todos / publish / ignore-rejects raise FileNotFoundError while no earlier command has   *)
+(*      created cache_todo/ / approved/ / rejects/ ("nothing to do" is an error on a fresh work dir).   *)
+(*   4. ignore_rejects hands one BytesIO to every put_item: every skip.flag after the first of a run is *)
+(*      empty (harmless: refresh only tests for existence).                                             *)
+(*                                                                                                     *)
 (* Not modelled: glob arguments of fetch / approve (several ids in one invocation = several            *)
 (* invocations, except that a missing id ends the invocation), deleting files from rejects/ by hand,    *)
 (* two commands running at the same time, crashes (Publish.tla), the Azure store.                      *)
@@ -204,7 +223,10 @@ Publish == \E o \in Listings(area["approved"]) : Do(C("publish", NoId, o))
 IgnoreRejects == Do(C("ignore-rejects", NoId, <<>>))
 
 \* the operator keeps working: every command that stays useful is eventually typed (approve: strong fairness,
-\* because a careful operator may not approve while the image is queued for reprocessing)
+\* because a careful operator may not approve while the image is queued for reprocessing).  Fairness of
+\* process-todos / publish is fairness of the COMMAND, whatever listing it meets: with ListingOrder = <<>> that is
+\* angelic (some listing that makes progress is eventually met), so the liveness sentences are also checked with
+\* a fixed ListingOrder - the same order in every run - which is the adversary a real file system provides.
 Fairness == /\ WF_vars(Refresh) /\ WF_vars(ProcessTodos) /\ WF_vars(Publish) /\ WF_vars(IgnoreRejects)
             /\ \A i \in Ids : WF_vars(Fetch(i)) /\ SF_vars(Approve(i))
 Spec == Init /\ [][Next]_vars /\ Fairness
